@@ -568,11 +568,30 @@ func checkTxs() {
 				bvals := []*big.Int{big.NewInt(0), big.NewInt(1), secpHalfN, new(big.Int).Add(secpHalfN, big.NewInt(1)), new(big.Int).Sub(secpN, big.NewInt(1)), secpN, two256m1}
 				rvals := append([]*big.Int{R}, bvals...)
 				svals := append([]*big.Int{S, new(big.Int).Sub(secpN, S)}, bvals...)
-				vvals := []int64{0, 1, 2, 3, 4, 26, 27, 28, 29, 35, 36, 37, 38, 255, 256, vBase - 1, vBase, vBase + 1, vBase + 2, vBase + 3, 1 << 32}
-				for _, vv := range vvals {
+				type vval struct {
+					v   *big.Int
+					cls string
+				}
+				var vvals []vval
+				for _, vv := range []int64{0, 1, 2, 3, 4, 26, 27, 28, 29, 35, 36, 37, 38, 255, 256, vBase - 1, vBase, vBase + 1, vBase + 2, vBase + 3, 1 << 32} {
+					vvals = append(vvals, vval{big.NewInt(vv), fmt.Sprintf("v=%d", vv-vBase)})
+				}
+				// values that WRAP to the genuine V (or to its twin) when narrowed to a byte / a uint64: a transaction can carry
+				// any integer as V (RLP / JSON), the signing API cannot produce them
+				for _, g := range []struct {
+					b   *big.Int
+					lab string
+				}{{V, "gen"}, {new(big.Int).Xor(V, big.NewInt(1)), "twin"}} {
+					for _, sh := range []uint{8, 9, 16, 32, 63, 64, 65} {
+						vvals = append(vvals, vval{new(big.Int).Add(g.b, new(big.Int).Lsh(big.NewInt(1), sh)), fmt.Sprintf("v=%s+2^%d", g.lab, sh)})
+					}
+					vvals = append(vvals, vval{new(big.Int).Add(g.b, big.NewInt(256*3)), fmt.Sprintf("v=%s+768", g.lab)})
+				}
+				for _, vx := range vvals {
+					vv := vx.v
 					for ri, rv := range rvals {
 						for si, sv := range svals {
-							mt, err := rawTx(bs, big.NewInt(vv), rv, sv)
+							mt, err := rawTx(bs, vv, rv, sv)
 							if err != nil {
 								continue
 							}
@@ -581,7 +600,7 @@ func checkTxs() {
 							var serr error
 							incons := ""
 							p, pv := safely(func() { a, serr, incons = senderTwice(s.s, mt) })
-							cls := fmt.Sprintf("v=%d|r=%d|s=%d", vv-vBase, ri, si)
+							cls := fmt.Sprintf("%s|r=%d|s=%d", vx.cls, ri, si)
 							if incons != "" {
 								r.Violation("C11|kind="+kind+"|oracle=repeated-presentation", incons, map[string]interface{}{"kind": kind, "V": vv, "R": rv.Text(16), "S": sv.Text(16)})
 							}
@@ -595,14 +614,18 @@ func checkTxs() {
 								continue
 							}
 							// accepted: must be a well-formed low-s signature whose recovery the reference agrees with
-							var recid int64
+							var recid int64 = -1 // a V that is not a small integer has no recovery id: the reference rejects
 							var hh common.Hash
 							if mt.Protected() {
 								cid := mt.ChainId()
-								recid = vv - 35 - 2*cid.Int64()
+								if d := new(big.Int).Sub(vv, new(big.Int).Add(big.NewInt(35), new(big.Int).Lsh(cid, 1))); d.IsInt64() {
+									recid = d.Int64()
+								}
 								hh = types.NewChainIDSigner(cid).Hash(mt)
 							} else {
-								recid = vv - 27
+								if d := new(big.Int).Sub(vv, big.NewInt(27)); d.IsInt64() {
+									recid = d.Int64()
+								}
 								hh = types.HomesteadSigner{}.Hash(mt)
 							}
 							ra, ok := refRecover(hh[:], rv, sv, recid)
